@@ -37,6 +37,16 @@ def _is_mutable_expr(v):
         (isinstance(v, ast.Call) and isinstance(v.func, ast.Name) and v.func.id in MUTABLE_CALLS)
 
 
+SCAN_PROPS = ["C12", "C13", "C19", "C07", "C02", "C05"]
+PROCESS_STATE_CALLS = {"np.seterr", "np.seterrcall", "np.setbufsize", "np.set_printoptions", "np.random.seed", "random.seed", "os.chdir", "os.umask", "os.putenv",
+                       "os.unsetenv", "sys.setrecursionlimit", "sys.setswitchinterval", "locale.setlocale", "warnings.simplefilter", "warnings.filterwarnings",
+                       "warnings.resetwarnings", "sym.init_printing", "sympy.init_printing", "decimal.setcontext", "gc.disable", "gc.enable", "gc.set_threshold",
+                       "os.environ.update", "os.environ.setdefault", "os.environ.pop", "sys.path.append", "sys.path.insert", "importlib.reload",
+                       "np.seterrobj", "atexit.register", "signal.signal", "threading.setprofile", "sys.settrace", "sys.setprofile"}
+PROCESS_STATE_TAILS = {"seterr", "seterrcall", "set_printoptions", "setrecursionlimit", "setlocale", "chdir"}
+COPY_PROTOCOL = {"__deepcopy__", "__copy__", "__reduce__", "__reduce_ex__", "__getstate__", "__setstate__", "__getnewargs__", "__getnewargs_ex__"}
+
+
 def closed_ownership_scan(section):
     """closed obligations (C12/C13): no mutable default argument and no class-level mutable attribute in the hand-written modules --
     either would be one object shared by every call / every instance / every load of the process"""
@@ -61,10 +71,54 @@ def closed_ownership_scan(section):
                         sites.append("line %d: class-level mutable attribute %s.%s" % (b.lineno, n.name, ", ".join(ast.unparse(t) for t in b.targets)))
         rec = {"name": "ownership/no-shared-mutable-defaults:%s" % rel, "status": C.DISCHARGED if not sites else C.FAILED, "backend": "closed-eval",
                "time_s": round(time.time() - t1, 4), "goal": "no mutable default argument and no class-level mutable attribute in blackbird/%s" % rel,
-               "props": ["C12", "C13"], "witness_families": ["history", "readonly_ops"]}
+               "props": SCAN_PROPS, "witness_families": ["history", "readonly_ops"]}
         if sites:
             rec["detail"] = "; ".join(sites[:8])
             rec["counterexample"] = {"sites": sites[:20]}
+        section["obligations"].append(rec)
+        # process-wide state: a call that changes a setting of the interpreter / NumPy / the OS process outlives the load that made it
+        psites = []
+        for n in ast.walk(tree):
+            if isinstance(n, ast.Call):
+                nm = ast.unparse(n.func)
+                if nm in PROCESS_STATE_CALLS or nm.split(".")[-1] in PROCESS_STATE_TAILS:
+                    psites.append("line %d: %s(...) changes process-wide state" % (n.lineno, nm))
+            if isinstance(n, (ast.Assign, ast.AugAssign, ast.Delete)):
+                for t in (n.targets if isinstance(n, (ast.Assign, ast.Delete)) else [n.target]):
+                    tt = ast.unparse(t)
+                    if tt.startswith(("os.environ", "sys.path", "sys.modules", "sys.flags", "np.random", "random.")):
+                        psites.append("line %d: assignment to %s changes process-wide state" % (n.lineno, tt))
+            if isinstance(n, ast.With):
+                pass
+        rec = {"name": "ownership/no-process-state-writes:%s" % rel, "status": C.DISCHARGED if not psites else C.FAILED, "backend": "closed-eval", "time_s": 0,
+               "goal": "blackbird/%s calls nothing that changes interpreter / NumPy / OS process settings (np.seterr, os.chdir, warnings filters, "
+                       "random seeds, locale, recursion limit, os.environ, sys.path ...)" % rel, "props": SCAN_PROPS, "witness_families": ["history", "hashseed"]}
+        if psites:
+            rec["detail"] = "; ".join(psites[:8])
+            rec["counterexample"] = {"sites": psites[:20]}
+        section["obligations"].append(rec)
+        # the copy protocol: PyVC and this engine read copy.deepcopy as "an equal structure sharing no mutable cell" (A-cpython); a class that
+        # customises copying or pickling can make it share
+        csites = []
+        for n in ast.walk(tree):
+            if isinstance(n, ast.ClassDef):
+                for b in n.body:
+                    if isinstance(b, ast.FunctionDef) and b.name in COPY_PROTOCOL:
+                        csites.append("line %d: %s.%s customises copying" % (b.lineno, n.name, b.name))
+                    if isinstance(b, ast.Assign) and any(isinstance(t, ast.Name) and t.id in COPY_PROTOCOL | {"__slots__"} for t in b.targets) \
+                       and any(isinstance(t, ast.Name) and t.id in COPY_PROTOCOL for t in b.targets):
+                        csites.append("line %d: %s.%s customises copying" % (b.lineno, n.name, ast.unparse(b.targets[0])))
+            if isinstance(n, ast.Call) and ast.unparse(n.func) in ("copyreg.pickle", "copy._deepcopy_dispatch.__setitem__"):
+                csites.append("line %d: %s registers a copy function" % (n.lineno, ast.unparse(n.func)))
+            if isinstance(n, ast.Subscript) and isinstance(n.ctx, ast.Store) and ast.unparse(n.value) in ("copy._deepcopy_dispatch", "copy._copy_dispatch", "copyreg.dispatch_table"):
+                csites.append("line %d: %s registers a copy function" % (n.lineno, ast.unparse(n.value)))
+        rec = {"name": "ownership/default-copy-protocol:%s" % rel, "status": C.DISCHARGED if not csites else C.FAILED, "backend": "closed-eval", "time_s": 0,
+               "goal": "no class of blackbird/%s defines __deepcopy__ / __copy__ / __reduce__ / __reduce_ex__ / __getstate__ / __setstate__ / __getnewargs__ and nothing registers a "
+                       "copy function: copy.deepcopy copies every mutable cell" % rel, "props": ["C13", "C04", "C07", "C17", "C12"],
+               "witness_families": ["readonly_ops", "template_subst"]}
+        if csites:
+            rec["detail"] = "; ".join(csites[:8])
+            rec["counterexample"] = {"sites": csites[:20]}
         section["obligations"].append(rec)
 
 
@@ -149,8 +203,10 @@ def main():
         section["notes"].extend("%s: %s" % (name, n) for n in sorted(set(ex.notes))[:12])
         if ex.unknown_heads:
             section["notes"].append("%s: term heads without a provenance rule (result may alias any argument): %s" % (name, ", ".join(sorted(ex.unknown_heads))[:400]))
-    if a.prop in ("C12", "C13", "ALL") and want is None:
-        closed_ownership_scan(section)
+    if want is None:
+        sec2 = {"obligations": [], "errors": section["errors"]}
+        closed_ownership_scan(sec2)
+        section["obligations"].extend(o for o in sec2["obligations"] if a.prop == "ALL" or a.prop in o["props"])
     section["trusted"].append("frame engine: provenance of symbolic terms; calls without a contract are treated as pure and fresh (listed in notes); "
                               "distinct access paths denote distinct objects")
     section["assumptions"].append("A-sympy/A-cpython: free_symbols and program mode/parameter sets are the only unordered collections in scope; sorted()/set()/len()/dict "
